@@ -31,10 +31,11 @@ func c16ID(i int) ID {
 
 // Identities 10..19 are NEAR-MISS ids of node 2's id (40 hex characters): they belong to no key
 // of the scenario and differ from PubKeyToID(key of node 2) as little as possible.
-//   10..14  the same first k = 1, 19, 20, 21, 39 characters, every later character changed
-//           (14: only the last character differs)
-//   15..18  a single character changed at position 0, 19, 20, 38
-//   19      the same id in upper case
+//
+//	10..14  the same first k = 1, 19, 20, 21, 39 characters, every later character changed
+//	        (14: only the last character differs)
+//	15..18  a single character changed at position 0, 19, 20, 38
+//	19      the same id in upper case
 var c16NearMissNames = map[int]string{
 	10: "node 2's id with all but the first 1 characters changed",
 	11: "node 2's id with all but the first 19 characters changed",
